@@ -94,7 +94,7 @@ def run_pure(case, timeout=30):
             lines = [l for l in err.split("\n") if l.strip()]
             cls = None
             for l in reversed(lines):
-                m = re.match(r"^([A-Za-z_][\w.]*)(:|$)", l)
+                m = re.match(r"^([A-Za-z_][\w.<>]*)(:|$)", l)      # e.g. __main__.f.<locals>.MyError: text
                 if m:
                     cls = m.group(1).split(".")[-1]
                     break
